@@ -29,3 +29,21 @@ Proof.
   destruct (fresh_vote_survives_block tree_variant c dt commit p possible infl txs s s1 s3 p eq_refl SN B Q T E) as [A ->].
   exact A.
 Qed.
+
+(* pro-rata redemption, for the tree as it is: ANY state (after any number of slashes, by governance or not) *)
+Lemma tree_redeem_pro_rata : forall c who amts s s',
+  (forall d, 0 <= shares s d) -> undelegate tree_variant c who amts s = Ok s' ->
+  exists pc, redeem_coins tree_variant s amts = Ok pc /\ fair s amts pc /\
+             (forall d, sbal s' who d = sbal s who d - csum pc d) /\ (forall d, stake s' d = stake s d - csum amts d).
+Proof. intros c who amts s s' NN H. exact (redeem_pro_rata tree_variant c who amts s s' eq_refl NN H). Qed.
+(* the governance slash is the keeper's slash *)
+Lemma tree_governance_slash : forall c sl s, step tree_variant c (OSlashProposal sl) s = slash tree_variant c sl s.
+Proof. reflexivity. Qed.
+Lemma tree_votes_only_for_signers : forall c dt commit p possible infl s s1 q,
+  begin_block tree_variant c dt commit p possible infl s = Ok s1 ->
+  In (q, height s1) (votes s1) -> (forall w, In w (votes s) -> snd w <= height s) -> In (q, true) commit.
+Proof. intros c dt commit p possible infl s s1 q. exact (votes_only_for_signers tree_variant c dt commit p possible infl s s1 q eq_refl). Qed.
+Lemma tree_partial_undelegate_keeps_delegator : forall c who amts s s',
+  undelegate tree_variant c who amts s = Ok s' ->
+  In who (dels s) -> (exists d, In d (c_dens c) /\ 0 < sbal s' who d) -> In who (dels s').
+Proof. intros c who amts s s'. exact (partial_undelegate_keeps_delegator tree_variant c who amts s s' eq_refl). Qed.
